@@ -304,9 +304,12 @@ func (sc *collection) doBuild(ctx context.Context) (Provider, error) {
 		scopes:                      make(map[*scope]struct{}, 4),
 	}
 
+	// Scoped initializers may depend on singletons, so the root scope is created
+	// without them and they are run once the singletons exist (phase 7)
+	voidReturnScoped := make([]*Descriptor, 0, voidCount)
 	for _, descriptor := range allDescriptors {
 		if descriptor != nil && descriptor.Lifetime == Scoped && descriptor.VoidReturn {
-			p.voidReturnScopedDescriptors = append(p.voidReturnScopedDescriptors, descriptor)
+			voidReturnScoped = append(voidReturnScoped, descriptor)
 		}
 	}
 
@@ -348,6 +351,23 @@ func (sc *collection) doBuild(ctx context.Context) (Provider, error) {
 			Phase:   "singleton-creation",
 			Details: "failed to initialize singletons",
 			Cause:   err,
+		}
+	}
+
+	// Phase 7: Run scoped initializers for the root scope
+	p.voidReturnScopedDescriptors = voidReturnScoped
+	for _, descriptor := range voidReturnScoped {
+		if _, err := p.rootScope.createInstance(descriptor); err != nil {
+			_ = p.Close()
+			return nil, &BuildError{
+				Phase:   "scope-creation",
+				Details: "failed to create root scope",
+				Cause: &ResolutionError{
+					ServiceType: descriptor.Type,
+					ServiceKey:  descriptor.Key,
+					Cause:       fmt.Errorf("failed to initialize scoped service: %w", err),
+				},
+			}
 		}
 	}
 
